@@ -50,6 +50,8 @@ type Profile struct {
 	// HostileFields: attribute names only from the hostile pool (keywords, predeclared
 	// identifiers, Goify collisions, names the generated code uses itself)
 	HostileFields bool
+	// AbsoluteRoutes: extra routes of a multi-route endpoint may be absolute ("//path")
+	AbsoluteRoutes bool
 	// AliasDefaults: primitive alias types may declare a Default on the type
 	// itself; attributes of that type inherit it
 	AliasDefaults bool
@@ -80,7 +82,7 @@ func Wide() Profile {
 func Request() Profile {
 	return Profile{Name: "request", MaxServices: 2, MaxMethods: 3, MaxFields: 6, Runtime: true,
 		Validations: true, Defaults: true, UserTypes: true, Aliases: true, Recursive: true, MultiRoute: true, BasePaths: true, Cookies: true,
-		ExplicitBody: true, Maps: true, Bytes: true, NoBodyVerbs: true, PrimPayloads: true, Errors: true, ParamHeavy: true, Unions: true}
+		ExplicitBody: true, Maps: true, Bytes: true, NoBodyVerbs: true, PrimPayloads: true, Errors: true, ParamHeavy: true, Unions: true, AbsoluteRoutes: true}
 }
 
 // Errors is the C05 profile.
@@ -95,7 +97,7 @@ func Routes() Profile {
 	return Profile{Name: "routes", MaxServices: 3, MaxMethods: 4, MaxFields: 5, Runtime: true,
 		Validations: true, Defaults: true, UserTypes: true, Aliases: true, Recursive: true, ResultTypes: true, Collections: true,
 		Errors: true, CustomErrors: true, Security: true, MultiRoute: true, BasePaths: true, Cookies: true, Tags: true, RespHeaders: true,
-		ExplicitBody: true, Maps: true, Bytes: true, Files: true, AllVerbs: true, PrimPayloads: true, NoBodyVerbs: true, ParamHeavy: true, Meta: true}
+		ExplicitBody: true, Maps: true, Bytes: true, Files: true, AllVerbs: true, PrimPayloads: true, NoBodyVerbs: true, ParamHeavy: true, Meta: true, AbsoluteRoutes: true}
 }
 
 // Names is a C01 campaign profile: the routes envelope outside the runtime
